@@ -570,6 +570,14 @@ def _document_frame(rep: Report, ix: Any, it: Any) -> None:
         for c in doc_classes(recv):
             found.setdefault((role, c.name, fld), []).append((where(f, at), value))
 
+    def field_names(nm: ast.AST | None) -> list[str]:
+        if isinstance(nm, ast.Constant) and isinstance(nm.value, str):
+            return [nm.value]
+        consts = getattr(it.node_av.get(id(nm)), "consts", None) if nm is not None else None
+        if consts and all(isinstance(c, str) for c in consts):
+            return sorted(consts)
+        return ["<computed>"]
+
     def fields_of(e: ast.AST | None, loc: Locals, depth: int = 0) -> list[tuple[ast.AST, str]]:
         """(document object, field) for every field of a document object that e may be: the field itself, an item of it, a local bound
         to it (directly, as one of a display that is unpacked / iterated, or on one branch of a conditional)"""
@@ -619,9 +627,11 @@ def _document_frame(rep: Report, ix: Any, it: Any) -> None:
             if cn in ("setattr", "__setattr__", "delattr", "__delattr__"):
                 args = x.args[1:] if cn.startswith("__") and isinstance(fn, ast.Attribute) and norm(fn.value) == "object" else x.args
                 if len(args) >= (1 if "del" in cn else 2) and doc_classes(args[0]):
-                    nm = args[1] if len(args) > 1 else None
-                    note(f, x, args[0], nm.value if isinstance(nm, ast.Constant) and isinstance(nm.value, str) else "<computed>",
-                         "None" if len(args) > 2 and isinstance(args[2], ast.Constant) and args[2].value is None else "<set>")
+                    # which field: every text the name can be (a constant, or whatever reaches it - a local, a parameter fed by the
+                    # calls, an element of a table of names - when the abstract value knows all its values); otherwise <computed>
+                    val = "None" if len(args) > 2 and isinstance(args[2], ast.Constant) and args[2].value is None else "<set>"
+                    for fl in field_names(args[1] if len(args) > 1 else None):
+                        note(f, x, args[0], fl, val)
     # what a validator hands back is what the document holds afterwards: a model validator returns the object it was given (or a copy
     # with named fields replaced: those are written), a field validator the value it was given (otherwise it writes its fields)
     for v in validators:
@@ -769,16 +779,40 @@ def _union_fallthrough(rep: Report, jx: Any) -> None:
     rep.require(cm, "union construct")
     udefs = _set_defs(ut)
     loc = f"{PKG}/templates/{ut.name}"
-    mloops = [f for f in cm.find_all(nodes.For) if "inner_properties" in expr_text(_inline(f.iter, udefs))]
+    # the loops over the union's members in construct and the macros of the template it calls: over property.inner_properties itself,
+    # or over a selection of it handed on in listed order (sa `_member_sel`); a loop whose iterable only mentions the members is one
+    # that is not understood.  The decode loops are those that call construct of the member's template.
+    mloops: list[tuple[nodes.Macro, nodes.For, Any]] = []
+    for m in _macro_region(ut, "construct"):
+        for f in m.find_all(nodes.For):
+            sel = _member_sel(ut, m, f.iter, udefs)
+            if sel is not None or "inner_properties" in expr_text(_inline(f.iter, udefs)):
+                mloops.append((m, f, sel))
     rep.require(mloops, "loop over the union's members in construct")
-    for f in mloops:
+    decode_loops: list[tuple[nodes.Macro, nodes.For, Any, bool, set[str]]] = []
+    for m, f, sel in mloops:
         t = expr_text(_inline(f.iter, udefs))
-        rep.check(t == "property.inner_properties" and f.test is None, "R02.8", "union_property.py.jinja::construct::member-loop",
-                  "the decode loop does not iterate the members as they are listed", where=f"{loc}:{f.lineno}", lhs=t, rhs="property.inner_properties")
-    ml = mloops[0]
-    member = f"{expr_text(ml.iter)}[*]"
-    aliases = {a for a, x in _inner_aliases(cm, udefs).items() if x == member}
-    rep.require(aliases, "import of the member's template in union construct")
+        roles = _loop_roles(f, sel if sel is not None else _WHOLE, udefs)      # (not understood: read as a loop over the members themselves)
+        decodes = roles is not None and any(isinstance(c.node, nodes.Getattr) and c.node.attr == "construct" and isinstance(c.node.node, nodes.Name) and
+                                            c.node.node.name in roles[1] for c in f.find_all(nodes.Call))
+        # every member that has a construct is decoded, in the order listed: the loop takes the members as they are listed, or (a
+        # selection) exactly those whose template has a construct
+        ok = sel is not None and not sel.disorder and f.test is None and roles is not None and \
+            (sel.whole or not decodes or _sel_is(sel, "<tpl>.construct", True))
+        rep.check(ok, "R02.8", "union_property.py.jinja::construct::member-loop",
+                  "the decode loop does not iterate the members as they are listed" + (f" ({sel.disorder})" if sel is not None and sel.disorder else ""),
+                  where=f"{loc}:{f.lineno}", lhs=t,
+                  rhs="property.inner_properties (or, in that order, exactly the members whose template has a construct)")
+        if decodes:
+            decode_loops.append((m, f, sel, ok, roles[1]))
+    rep.require(decode_loops, "a loop over the union's members that calls construct of the member's template (imported for it) in union construct")
+    n_dec = 0
+    for m, ml, sel, ok, aliases in decode_loops:
+        n_dec += _fallthrough_of(rep, ut, m, ml, ok, aliases, udefs, loc)
+    rep.floor("union_member_decodes", n_dec, 1)
+
+
+def _fallthrough_of(rep: Report, ut: Any, m: nodes.Macro, ml: nodes.For, loop_ok: bool, aliases: set[str], udefs: dict, loc: str) -> int:
     frs = list(tplq.frags(ml.body))
 
     def is_decode(fr: tplq.Frag) -> bool:
@@ -788,7 +822,8 @@ def _union_fallthrough(rep: Report, jx: Any) -> None:
     def whenever(a: tplq.Frag, b: tplq.Frag) -> bool:
         return a.guards == b.guards[:len(a.guards)]   # a is emitted whenever b is
 
-    # the pass-through flag: the namespace attribute set to true where the member's template has no construct
+    # the pass-through flag, false only when no member without construct was met: a namespace attribute set to true where the member's
+    # template has no construct, or a selection of the members that takes in exactly those without construct (empty = false)
     flags = set()
     for s in _stmt_frags(ml.body, (nodes.Assign,)):
         a = s.node
@@ -796,6 +831,13 @@ def _union_fallthrough(rep: Report, jx: Any) -> None:
             envs = list(_emitted_envs(s, _strip_parens))
             if envs and all(any(env.get(f"{al}.construct") is False for al in aliases) for env in envs):
                 flags.add(f"{a.target.name}.{a.target.attr}")
+    for cb in m.find_all(nodes.CallBlock):
+        for prm in cb.args:
+            other = _member_sel(ut, m, nodes.Name(prm.name, "load"), udefs)
+            if other is not None and not other.whole and _sel_is(other, "<tpl>.construct", False):
+                flags.add(prm.name)
+    if not flags and not loop_ok:
+        return sum(is_decode(d) for d in frs)     # (the loop's members are already reported: which of them fall through presupposes them)
     rep.require(len(flags) == 1, "the flag recording a member without construct (pass-through) in union construct")
     flag = next(iter(flags))
     n_dec = 0
@@ -817,7 +859,133 @@ def _union_fallthrough(rep: Report, jx: Any) -> None:
                   f"a member is decoded without try/except although another alternative may remain (e.g. {bad}): a value of a pass-through "
                   "member listed before it makes from_dict raise instead of returning the value", where=f"{loc}:{d.line}",
                   lhs=[g for g, _ in d.guards], rhs="no type check, or (loop.last and no pass-through member seen)")
-    rep.floor("union_member_decodes", n_dec, 1)
+    return n_dec
+
+
+# ---- the members of a container, and the sequences made from them ----------------------------------------------------------------
+class _Sel(NamedTuple):
+    """a sequence that holds members of `property.inner_properties`, each at most once, in the order they are listed"""
+    alts: tuple           # ((guards, guard nodes), ...): a member is taken in when one of them holds; () for the whole list
+    shape: tuple          # what an element is: ("member",) the member itself, else a tuple with "member" / "template" / "?" per position
+    member: str = ""      # how the member reads inside the guards (the variable of the loop that selects)
+    aliases: frozenset = frozenset()      # how the template imported for the member reads there
+    disorder: str = ""    # (not empty: made from the members, but not each at most once in the order listed - why)
+
+    @property
+    def whole(self) -> bool:
+        return not self.alts
+
+
+_WHOLE = _Sel((), ("member",))
+
+
+def _member_sel(ti: Any, m: nodes.Macro, e: Any, defs: dict[str, list[nodes.Node]], depth: int = 0) -> _Sel | None:
+    """What the expression `e`, read in macro m, holds of the container's members - None when that is not understood.  Understood:
+    `property.inner_properties` itself (also through a set variable); a parameter of a `{% call(...) M(...) %}` block: what M hands
+    to `caller(...)` at that position; there, an attribute of a namespace that starts as an empty list and is only ever extended at
+    its end (`ns.a = ns.a + [x]`) inside one loop over the whole member list (a single pass keeps the order), x being the member or
+    a tuple of the member and the template imported for it: the members for which one of the conditions around those statements
+    holds."""
+    e = _inline(e, defs)
+    if expr_text(e) == "property.inner_properties":
+        return _WHOLE
+    if depth > 2:
+        return None
+    if isinstance(e, nodes.Name):
+        for cb in m.find_all(nodes.CallBlock):
+            idx = next((i for i, a in enumerate(cb.args) if isinstance(a, nodes.Name) and a.name == e.name), None)
+            if idx is None:
+                continue
+            callee = ti.macros.get(cb.call.node.name) if isinstance(cb.call, nodes.Call) and isinstance(cb.call.node, nodes.Name) else None
+            if callee is None or callee is m:
+                return None
+            body = _bind(callee, cb.call)
+            handed = [c for n in body for c in n.find_all(nodes.Call) if isinstance(c.node, nodes.Name) and c.node.name == "caller"]
+            if not handed or any(c.kwargs or c.dyn_args or c.dyn_kwargs or idx >= len(c.args) for c in handed) or \
+                    len({expr_text(c.args[idx]) for c in handed}) != 1:
+                return None
+            return _collected_sel(ti, callee, body, handed[0].args[idx], defs, depth + 1)
+    return None
+
+
+def _collected_sel(ti: Any, callee: nodes.Macro, body: list[nodes.Node], e: Any, defs: dict[str, list[nodes.Node]], depth: int) -> _Sel | None:
+    direct = _member_sel(ti, callee, e, defs, depth)
+    if direct is not None:
+        return direct
+    if not (isinstance(e, nodes.Getattr) and isinstance(e.node, nodes.Name)):
+        return None
+    ns, attr = e.node.name, e.attr
+    inits = [a.node for n in body for a in [n, *n.find_all(nodes.Assign)] if isinstance(a, nodes.Assign) and isinstance(a.target, nodes.Name) and a.target.name == ns]
+    if len(inits) != 1 or not (isinstance(inits[0], nodes.Call) and expr_text(inits[0].node) == "namespace"):
+        return None
+    start = [k.value for k in inits[0].kwargs if k.key == attr]
+    if len(start) != 1 or not (isinstance(start[0], (nodes.List, nodes.Tuple)) and not start[0].items):
+        return None
+    stores = [st for st in _stmt_frags(body, (nodes.Assign,)) if isinstance(st.node.target, nodes.NSRef) and (st.node.target.name, st.node.target.attr) == (ns, attr)]
+    loops = [f for n in body for f in [n, *n.find_all(nodes.For)] if isinstance(f, nodes.For)]
+    around = {id(f): f for st in stores for f in loops if any(x is st.node for x in f.find_all(nodes.Assign))}
+    if not stores or len(around) != 1 or any(len(st.loops) != 1 for st in stores):
+        return None       # filled in more than one pass (a partition put together again reorders), or inside nested loops
+    f = next(iter(around.values()))
+    src = _member_sel(ti, callee, f.iter, defs, depth)
+    disorder = ""
+    if src is None and "inner_properties" in expr_text(_inline(f.iter, defs)):
+        src, disorder = _WHOLE, f"collected in a loop over `{expr_text(_inline(f.iter, defs))}`, not over the members as they are listed"
+    roles = _loop_roles(f, src, defs) if src is not None and src.whole else None
+    if roles is None:
+        return None
+    disorder = disorder or src.disorder
+    member, aliases = roles
+    shapes = set()
+    for st in stores:
+        v = st.node.node
+        own = f"{ns}.{attr}"
+        if isinstance(v, nodes.Add) and expr_text(v.right) == own and isinstance(v.left, nodes.List) and len(v.left.items) == 1:
+            v, disorder = nodes.Add(v.right, v.left), disorder or "every element is put in front of the ones collected before"
+        if not (isinstance(v, nodes.Add) and expr_text(v.left) == own and isinstance(v.right, nodes.List) and len(v.right.items) == 1):
+            return None       # (anything but one element put at an end)
+        x = v.right.items[0]
+        shapes.add(tuple("member" if expr_text(y) == member else "template" if expr_text(y) in aliases else "?"
+                         for y in (x.items if isinstance(x, nodes.Tuple) else [x])))
+    shape = next(iter(shapes))
+    if len(shapes) != 1 or shape.count("member") != 1:
+        return None
+    return _Sel(tuple((st.guards, st.guard_nodes) for st in stores), shape, member, frozenset(aliases), disorder)
+
+
+def _loop_roles(f: nodes.For, sel: _Sel, defs: dict[str, list[nodes.Node]]) -> tuple[str, set[str]] | None:
+    """(the variable that is the member, the names that are the template imported for it) inside a loop over the sequence `sel`: the
+    template is imported in the loop (`{% import "property_templates/" + <member>.template as ... %}`) or comes with the member"""
+    t = f.target
+    names = [t] if sel.shape == ("member",) else list(t.items) if isinstance(t, nodes.Tuple) and len(t.items) == len(sel.shape) else []
+    if len(names) != len(sel.shape) or not all(isinstance(x, nodes.Name) for x in names):
+        return None
+    member = names[sel.shape.index("member")].name
+    aliases = {a for a, x in _inner_aliases(f, defs).items() if x == member} | {x.name for x, r in zip(names, sel.shape) if r == "template"}
+    return member, aliases
+
+
+def _sel_is(sel: _Sel, atom: str, value: bool) -> bool:
+    """the selection takes in exactly the members for which `atom` (the member written <m>, its template <tpl>; `x["a"]` is `x.a`) has
+    the truth value `value`, whatever else is tested"""
+    def natom(t: str) -> str:
+        t = re.sub(r"\[(['\"])(\w+)\1\]", r".\2", t)
+        for a in sorted(sel.aliases, key=len, reverse=True):
+            t = re.sub(rf"(?<![\w.]){re.escape(a)}(?![\w(])", "<tpl>", t)
+        if sel.member:
+            t = t.replace(sel.member, "<m>")
+        return _strip_parens(t)
+
+    raw = [(gn, [a for a in tplq.atoms(gn)]) for _, gnodes in sel.alts for gn in gnodes]
+    names = sorted({natom(a) for _, ats in raw for a in ats})
+    if atom not in names:
+        return False
+    for env in tplq.assignments(names):
+        taken = any(all(tplq.evaluate(gn, {a: env[natom(a)] for a in tplq.atoms(gn)}) == pol for gn, (_, pol) in zip(gnodes, guards))
+                    for guards, gnodes in sel.alts)
+        if taken != (env[atom] == value):
+            return False
+    return True
 
 
 # ---- R02.8 ---------------------------------------------------------------------------------------------------------------------
@@ -1848,12 +2016,19 @@ def _delegated(ti: Any, macro: str) -> set[str]:
     defs = _set_defs(ti)
     got: set[str] = set()
     for m in _macro_region(ti, macro):
-        al = _inner_aliases(m, defs)
+        # {name of the template: the inner property it was imported for}: imported here for property.inner_propert..., or handed on
+        # together with the member in a sequence made from the members (sa `_member_sel`)
+        al = {a: x for a, x in _inner_aliases(m, defs).items() if x.startswith("property.inner_propert")}
+        for f in m.find_all(nodes.For):
+            sel = _member_sel(ti, m, f.iter, defs)
+            roles = _loop_roles(f, sel, defs) if sel is not None else None
+            for a in (roles[1] if roles else ()):
+                al.setdefault(a, roles[0])
         for c in m.find_all(nodes.Call):
             if isinstance(c.node, nodes.Getattr) and isinstance(c.node.node, nodes.Name) and c.node.node.name in al:
                 x = al[c.node.node.name]
                 first = c.args[0] if c.args else next((k.value for k in c.kwargs if k.key == "property"), None)
-                if first is not None and expr_text(_inline(first, defs)) == x and x.startswith("property.inner_propert"):
+                if first is not None and expr_text(_inline(first, defs)) == x:
                     got.add(c.node.attr)
     return got
 
